@@ -107,6 +107,7 @@ def run(ctx: Ctx) -> RuleResult:
     repo, ty, cg = ctx.repo, ctx.typer, ctx.cg
     res = RuleResult('R-EXC-DISCIPLINE', 'only UnexpectedInput subclasses (or tabled configuration / internal / documented classes) are raised '
                                          'on the path of parse(); none is swallowed')
+    res.default_props = ['C01', 'C08']
     ui = repo.cls(UI)
     fam = {k.qual for k in [ui] + ui.all_subclasses()}
     reach = cg.reach(['lark.lark:Lark.parse'])
@@ -248,7 +249,7 @@ def run(ctx: Ctx) -> RuleResult:
         res.ob('%s %s' % (site.func.loc(call), site.func.qual), 'a resumed parse passes the lexer state\'s last token to parse_from_state', ok)
         if not ok:
             res.finding(site.func, enclosing_stmt(call), 'parse_from_state is resumed without the last token: when only ignorable text remains, '
-                        'the unexpected $END is reported at 1:1 instead of at the last token', construct='resume-without-last-token')
+                        'the unexpected $END is reported at 1:1 instead of at the last token', construct='resume-without-last-token', props=['C01', 'C08', 'C13'])
     # Earley: expected sets are computed from the scan buffer; the rejection happens exactly when nothing survives the step
     from ..exprs import path_conditions, bool_relation
     for fq, cls, want in (('lark.parsers.earley:Parser._parse.scan', 'UnexpectedToken', 'not next_set and not next_to_scan'),
